@@ -18,10 +18,13 @@ import (
 	"github.com/cosmos/cosmos-sdk/codec"
 	sdk "github.com/cosmos/cosmos-sdk/types"
 	banktypes "github.com/cosmos/cosmos-sdk/x/bank/types"
+	upgradetypes "github.com/cosmos/cosmos-sdk/x/upgrade/types"
 	aoltypes "github.com/medibloc/panacea-core/v2/x/aol/types"
 	burntypes "github.com/medibloc/panacea-core/v2/x/burn/types"
 	didtypes "github.com/medibloc/panacea-core/v2/x/did/types"
 	pnfttypes "github.com/medibloc/panacea-core/v2/x/pnft/types"
+
+	"github.com/medibloc/panacea-core/v2/app"
 
 	"verif/engine/world"
 )
@@ -57,6 +60,19 @@ type History struct {
 	Accounts []string   `json:"accounts"`
 	Blocks   [][]string `json:"blocks"`  // base64 tx bytes
 	Genesis  string     `json:"genesis"` // name of a genesis variant ("" = plain default genesis)
+	// UpgradeAtBlock > 0: at the start of that history block the software-upgrade plan UpgradeName is scheduled for the next
+	// height on the deliver state (a stand-in for a passed upgrade proposal, which does exactly this call in gov's end
+	// blocker); the next block's BeginBlock then executes the upgrade handler in-process.
+	UpgradeAtBlock int    `json:"upgrade_at_block"`
+	UpgradeName    string `json:"upgrade_name"`
+}
+
+func (h History) maybeScheduleUpgrade(w *world.World, bi int) {
+	if h.UpgradeAtBlock > 0 && bi == h.UpgradeAtBlock {
+		if err := w.App.UpgradeKeeper.ScheduleUpgrade(w.Ctx(), upgradetypes.Plan{Name: h.UpgradeName, Height: w.Height + 1}); err != nil {
+			panic(err)
+		}
+	}
 }
 
 // genesisVariants: unusual but validation-passing genesis contents (the property quantifies over every genesis).
@@ -103,13 +119,15 @@ var genesisVariants = map[string]func(gs map[string]json.RawMessage, cdc codec.C
 }
 
 type RunOpts struct {
-	CheckTxBefore  bool           `json:"check_tx_before"`
-	SimulateBefore bool           `json:"simulate_before"`
-	QueriesBetween bool           `json:"queries_between"`
-	ExtraAt        map[int]string `json:"extra_at"` // ABCI call index -> "check"|"simulate"|"query"
-	DBDir          string         `json:"db_dir"`   // goleveldb directory ("" = MemDB)
-	StopAt         int            `json:"stop_at"`  // exit the process (os.Exit(3)) right after this ABCI call index; -1 = never
-	Resume         bool           `json:"resume"`   // continue on an existing DBDir: blocks <= committed height are skipped
+	CheckTxBefore   bool           `json:"check_tx_before"`
+	SimulateBefore  bool           `json:"simulate_before"`
+	QueriesBetween  bool           `json:"queries_between"`
+	ExtraAt         map[int]string `json:"extra_at"`       // ABCI call index -> "check"|"simulate"|"query"
+	DBDir           string         `json:"db_dir"`         // goleveldb directory ("" = MemDB)
+	StopAt          int            `json:"stop_at"`        // exit the process (os.Exit(3)) right after this ABCI call index; -1 = never
+	Resume          bool           `json:"resume"`         // continue on an existing DBDir: blocks <= committed height are skipped
+	MinGasPrices    string         `json:"min_gas_prices"` // node-local app.toml settings of this replica
+	InterBlockCache bool           `json:"inter_block_cache"`
 }
 
 func hashEvents(evs []abci.Event) string {
@@ -237,9 +255,14 @@ func (e *twinEnv) buildHistory(blocks [][]int) (History, []BlockObs) {
 }
 
 func (e *twinEnv) buildHistoryG(blocks [][]int, genesis string) (History, []BlockObs) {
+	return e.buildHistoryU(blocks, genesis, 0, "")
+}
+
+// buildHistoryU: as buildHistoryG, with a software upgrade scheduled at the start of history block upgradeAt (> 0).
+func (e *twinEnv) buildHistoryU(blocks [][]int, genesis string, upgradeAt int, upgradeName string) (History, []BlockObs) {
 	ops := e.mixedOps()
 	w := world.New(world.Options{Accounts: e.accounts(), Mutate: genesisVariants[genesis]})
-	h := History{Genesis: genesis}
+	h := History{Genesis: genesis, UpgradeAtBlock: upgradeAt, UpgradeName: upgradeName}
 	for _, a := range e.accounts() {
 		h.Accounts = append(h.Accounts, a.Name)
 	}
@@ -256,6 +279,7 @@ func (e *twinEnv) buildHistoryG(blocks [][]int, genesis string) (History, []Bloc
 		if bi == 0 {
 			n = len(specs)
 		}
+		h.maybeScheduleUpgrade(w, bi)
 		for i := 0; i < n; i++ {
 			var spec world.TxSpec
 			if bi == 0 {
@@ -316,7 +340,7 @@ func (e *twinEnv) execHistory(h History, o RunOpts, db dbm.DB) (res ExecResult) 
 	startBlock := 0
 	call := 0
 	if o.Resume {
-		w = world.Open(world.Options{Accounts: accs, DB: db})
+		w = world.Open(world.Options{Accounts: accs, DB: db, Node: world.NodeConfig{MinGasPrices: o.MinGasPrices, InterBlockCache: o.InterBlockCache}})
 		res.ResumeHeight = w.Height
 		res.ResumeAppHash = hex.EncodeToString(w.LastHash)
 		res.ResumeState = committedStateHash(w)
@@ -325,7 +349,7 @@ func (e *twinEnv) execHistory(h History, o RunOpts, db dbm.DB) (res ExecResult) 
 		call = -1 << 30 // stop points do not apply to a resumed run
 		w.BeginBlock()
 	} else {
-		w = world.New(world.Options{Accounts: accs, DB: db, Mutate: genesisVariants[h.Genesis]})
+		w = world.New(world.Options{Accounts: accs, DB: db, Mutate: genesisVariants[h.Genesis], Node: world.NodeConfig{MinGasPrices: o.MinGasPrices, InterBlockCache: o.InterBlockCache}})
 	}
 	after := func() bool { // bookkeeping after one ABCI call; true = stop now
 		if o.QueriesBetween || o.ExtraAt[call] == "query" {
@@ -341,6 +365,7 @@ func (e *twinEnv) execHistory(h History, o RunOpts, db dbm.DB) (res ExecResult) 
 			res.Stopped = call - 1
 			return
 		}
+		h.maybeScheduleUpgrade(w, bi)
 		for _, t64 := range h.Blocks[bi] {
 			bz, _ := base64.StdEncoding.DecodeString(t64)
 			if o.CheckTxBefore || o.ExtraAt[call] == "check" {
@@ -550,3 +575,18 @@ func histName(ops []mixedOp, blocks [][]int) string {
 }
 
 var _ = sort.Strings
+
+// upgradeCases: histories that contain an in-process software upgrade (the newest registered upgrade name, scheduled in
+// history block 1, executed by BeginBlock of block 2, followed by a block of traffic).
+func upgradeCases(e *twinEnv, shard, n int) []*histCase {
+	name := app.Upgrades[len(app.Upgrades)-1].UpgradeName
+	var out []*histCase
+	for i, blocks := range [][][]int{{{0}, {2}, {5, 11}}, {{2}, {2}, {2}}, {{11}, {8}, {3}}, {{5}, {6, 7}, {1, 3}}} {
+		if i%n != shard {
+			continue
+		}
+		h, obs := e.buildHistoryU(blocks, "", 1, name)
+		out = append(out, &histCase{blocks: blocks, name: "upgrade(" + name + ")@block1 " + histName(e.mixedOps(), blocks), hist: h, obsA: obs})
+	}
+	return out
+}
